@@ -69,6 +69,7 @@ func c15Run(r *zsim.Run) {
 	useExclusive := o.Intn(3) == 0
 	var subs []*c15Sub
 	live := map[string]string{} // model: key -> value
+	dead := map[string]string{} // keys that were deleted, with the value they carried
 	nextKey := 0
 	// exclusive mode: value -> most recent key that published it (by delivered event order)
 	lastKey := map[string]string{}
@@ -187,8 +188,26 @@ func c15Run(r *zsim.Run) {
 			sort.Strings(keys)
 			k := keys[o.Intn(len(keys))]
 			etcd.Apply(true, k, "")
+			dead[k] = live[k]
 			delete(live, k)
 			r.Logf("delete %s", k)
+			return
+		}
+		if len(dead) > 0 && o.Intn(4) == 0 {
+			// a publisher that lost its lease registers again: same key, same value, a new life
+			ks := make([]string, 0, len(dead))
+			for k := range dead {
+				ks = append(ks, k)
+			}
+			sort.Strings(ks)
+			k := ks[o.Intn(len(ks))]
+			v := dead[k]
+			delete(dead, k)
+			etcd.Apply(false, k, v)
+			live[k] = v
+			lastKey[v] = k
+			r.Logf("put %s=%s (again)", k, v)
+			r.Probe("key_registered_again")
 			return
 		}
 		nextKey++
@@ -262,7 +281,7 @@ func c15Run(r *zsim.Run) {
 				}
 			}
 			if f.Intn(4) == 3 {
-				etcd.GetFaults = 1 + f.Intn(2)
+				etcd.GetFaults = 1 + f.Intn(5) // up to five failed snapshot reads: the retries outlast one request timeout
 			}
 			if seamed {
 				etcd.Conn.Set(connectivity.TransientFailure)
@@ -303,6 +322,16 @@ func c15Run(r *zsim.Run) {
 			} else {
 				done, want := 0, 1
 				r.Go("reload", func() { etcd.ZsimReload(endpoints); done++ })
+				if f.Intn(3) == 0 && len(subs) < 4 {
+					// a subscriber joins while the reload is telling the others what changed
+					together = true
+					ok := attach()
+					together = false
+					if !ok {
+						return
+					}
+					r.Probe("join_during_reload")
+				}
 				if twice {
 					want = 2
 					zsim.Sleep(10 * time.Millisecond)
@@ -315,7 +344,9 @@ func c15Run(r *zsim.Run) {
 				}
 			}
 			etcd.GetDelay = 0
-			zsim.Sleep(5 * time.Second) // Get retries after errors
+			// the snapshot read is retried once a second until it succeeds; then a (second) reload may still be loading
+			r.WaitFor(30*time.Second, 100*time.Millisecond, func() bool { return etcd.GetFaults == 0 })
+			zsim.Sleep(3 * time.Second)
 		case f.Intn(7) == 6: // a watch breaks and is re-established from the loaded revision (re-delivery)
 			if etcd.BreakWatch(f.Intn(4), f.Intn(3)) {
 				r.FaultFired("watch-broken")
